@@ -122,3 +122,35 @@ __CPROVER_ensures((optv_newlines == 3 && LEC(0) >= LEC(1) && LEC(0) >= LEC(2)) =
 __CPROVER_ensures((optv_newlines == 3 && LEC(1) > LEC(0) && LEC(1) >= LEC(2)) ==> NL_IS_CRLF)
 __CPROVER_ensures((optv_newlines == 3 && LEC(2) > LEC(0) && LEC(2) > LEC(1)) ==> NL_IS_CR)
 ;
+
+/* ---- head of parse_next() (C07-K5): while processing is off, parse_ignored is tried before any other tokenizer ---- */
+size_t g_pn_calls;        /* tokenizers called so far */
+int    g_pn_first;        /* which one was called first: 1 parse_ignored, 2 parse_macro */
+_Bool  g_pi_ret, g_pm_ret;
+extern const unsigned CT_NONE_V;
+_Bool parse_ignored_view(struct TokenContext *ctx, struct Chunk *pc)
+__CPROVER_assigns(g_pn_calls, g_pn_first, g_pi_ret, TC_FRAME(ctx), CPD(unc_off), Chunk_m_type(pc), Chunk_m_nlCount(pc))
+__CPROVER_ensures(g_pn_calls == __CPROVER_old(g_pn_calls) + 1 && g_pn_first == (__CPROVER_old(g_pn_calls) == 0 ? 1 : __CPROVER_old(g_pn_first)))
+__CPROVER_ensures(!g_pi_ret == !__CPROVER_return_value)
+;
+_Bool parse_macro_view(struct TokenContext *ctx, struct Chunk *pc, const struct Chunk *prev_pc)
+__CPROVER_assigns(g_pn_calls, g_pn_first, g_pm_ret, TC_FRAME(ctx), Chunk_m_type(pc), Chunk_m_nlCount(pc))
+__CPROVER_ensures(g_pn_calls == __CPROVER_old(g_pn_calls) + 1 && g_pn_first == (__CPROVER_old(g_pn_calls) == 0 ? 2 : __CPROVER_old(g_pn_first)))
+__CPROVER_ensures(!g_pm_ret == !__CPROVER_return_value)
+;
+_Bool parse_next_head_contract(struct TokenContext *ctx, struct Chunk *pc, const struct Chunk *prev_pc)
+__CPROVER_requires(TC_FRESH(ctx) && __CPROVER_is_fresh(pc, SIZEOF_Chunk) && !Chunk_m_nullChunk(pc) && g_pn_calls == 0)
+__CPROVER_assigns(g_pn_calls, g_pn_first, g_pi_ret, g_pm_ret, TC_FRAME(ctx), CPD(unc_off), Chunk_m_type(pc), Chunk_m_nlCount(pc), Chunk_m_origLine(pc),
+                  Chunk_m_origCol(pc), Chunk_m_column(pc), Chunk_m_flags(pc))
+/* end of input: nothing is tried */
+__CPROVER_ensures(__CPROVER_old(TC_idx(ctx)) >= TC_size(ctx) ==> (!__CPROVER_return_value && g_pn_calls == 0))
+/* inside a disabled region the line capture comes first, and when it takes the text nothing else is asked */
+__CPROVER_ensures((__CPROVER_old(TC_idx(ctx)) < TC_size(ctx) && __CPROVER_old(CPD(unc_off))) ==> (g_pn_calls >= 1 && g_pn_first == 1))
+__CPROVER_ensures((__CPROVER_old(TC_idx(ctx)) < TC_size(ctx) && __CPROVER_old(CPD(unc_off)) && g_pi_ret) ==> (__CPROVER_return_value && g_pn_calls == 1))
+/* outside a disabled region parse_ignored is not consulted at all */
+__CPROVER_ensures(!__CPROVER_old(CPD(unc_off)) ==> (g_pn_calls == 0 || g_pn_first == 2))
+/* macro blocks only when disable_processing_nl_cont is set */
+__CPROVER_ensures(!optv_disable_processing_nl_cont ==> (g_pn_calls == 0 || (g_pn_calls == 1 && g_pn_first == 1)))
+/* the chunk handed to the tokenizers starts at the cursor */
+__CPROVER_ensures(g_pn_calls == 0 && __CPROVER_old(TC_idx(ctx)) < TC_size(ctx) ==> (Chunk_m_origLine(pc) == TC_row(ctx) && Chunk_m_origCol(pc) == TC_col(ctx) && Chunk_m_nlCount(pc) == 0 && Chunk_m_flags(pc) == 0))
+;
